@@ -3,3 +3,4 @@ import Gen.Arith
 import Gen.Helpers
 import Gen.Sigs
 import Gen.Align
+import Gen.Effects
